@@ -1508,6 +1508,18 @@ TIE_TRACKS2 = ["TieTracks2." + t for t in (
 TIE_TRACKS3 = ["TieTracks3." + t for t in (
     "expand_flexible_tracks_run run_pure run_ofExcept run_bind run_call run_ite run_filterMapM maxByTotalCmp_eq indexRange_eq "
     "expand_map redo_eq").split()]
+# Props/TieGridItem.lean: grid_item.rs (extract/src/griditem.rs -> Generated/GridItem.lean): struct GridItem, the pure methods, the
+# tree-calling methods min/max_content_contribution[_cached] in interaction form (Slice.TreeProg, Model/SliceOps4.lean)
+TIE_GRIDITEM = ["TieGridItem." + t for t in (
+    "ofFields_eta placement_eq placement_indexes_eq track_range_excluding_lines_eq crosses_flexible_track_eq crosses_intrinsic_track_eq "
+    "line_span_eq line_span_err line_span_ok span_ok span_eq all_isSome_eq unwrap_some unwrap_none foldlM_unwrap limit_eq "
+    "spanned_track_limit_eq spanned_fixed_track_limit_eq indexRange_ok spanned_track_limit_ok spanned_fixed_track_limit_ok "
+    "margins_axis_sums_with_baseline_shims_eq or_else_eq known_dimensions_eq available_space_eq available_space_ok as_abs_naive_eq "
+    "min_content_contribution_eq max_content_contribution_eq available_space_cached_eq min_content_contribution_cached_eq "
+    "max_content_contribution_cached_eq").split()]
+# Props/TieGridItem2.lean: minimum_contribution[_cached] in interaction form
+TIE_GRIDITEM += ["TieGridItem." + t for t in (
+    "toGM_pure toGM_ofExcept_ok toGM_bind ofExcept_ok_bind or_isSome_eq minimum_contribution_eq minimum_contribution_cached_eq").split()]
 TIE_SLICES_TRUSTED = ("tier T (grid track initialisation): Generated/{TrackFns,GridInit}.lean are translated from src/style/grid.rs, "
                       "src/geometry.rs (AbsoluteAxis, Size::get_abs), src/compute/grid/types/{grid_track,grid_track_counts}.rs and "
                       "src/compute/grid/explicit_grid.rs on every run (verif/extract/src/{slices,gridinit}.rs, my code): u16 + - *, usize - % "
@@ -1542,7 +1554,9 @@ def _add_tie_slices(pid):
     c = PROPS[pid]
     for module, theorems in (("TaffyVerif.Props.TieTrackFns", TIE_TRACKFNS), ("TaffyVerif.Props.TieGridInit", TIE_GRIDINIT),
                              ("TaffyVerif.Props.TieTracks", TIE_TRACKS), ("TaffyVerif.Props.TieTracks2", TIE_TRACKS2),
-                             ("TaffyVerif.Props.TieTracks3", TIE_TRACKS3)):
+                             ("TaffyVerif.Props.TieTracks3", TIE_TRACKS3), ("TaffyVerif.Props.TieGridItem2", TIE_GRIDITEM)):
+        if pid == "C03" and module == "TaffyVerif.Props.TieGridItem2":
+            continue
         if pid == "C12" and module in ("TaffyVerif.Props.TieTracks2", "TaffyVerif.Props.TieTracks3"):
             continue
         if module not in c["modules"]:
@@ -1553,6 +1567,10 @@ def _add_tie_slices(pid):
 
 for _pid in ("C09", "C03", "C04", "C12"):
     _add_tie_slices(_pid)
+# grid_item.rs is also part of C06's tier T (the measure_child_size queries of the grid items)
+if "TaffyVerif.Props.TieGridItem2" not in PROPS["C06"]["modules"]:
+    PROPS["C06"]["modules"] = list(PROPS["C06"]["modules"]) + ["TaffyVerif.Props.TieGridItem2"]
+    PROPS["C06"]["theorems"] = list(PROPS["C06"]["theorems"]) + [t for t in TIE_GRIDITEM if t not in PROPS["C06"]["theorems"]]
 
 # Tier T for TaffyTree's structural methods (src/tree/taffy_tree.rs): every statement of every structural method is translated from
 # the source on every run (extract/src/treeops.rs -> Generated/TreeOps.lean, programs of the monad Model/TreeInterp.lean);
@@ -1681,6 +1699,15 @@ def _add_c03_finite_grid():
     c = PROPS["C03"]
     c["modules"] = list(c["modules"]) + ["TaffyVerif.Props.C03FiniteGrid"]
     c["theorems"] = list(c["theorems"]) + [t for t in C03_FINITE_GRID if t not in c["theorems"]]
+    c["level_text"] = c["level_text"] + (
+        " Finiteness of the grid program (Props/C03FiniteGrid.lean, at the extended numbers): every query input, every layout set and the output of "
+        "computeGridLayout are finite for finite styles, finite track functions and finite inputs and child answers (grid_finite_partial, "
+        "algFin_grid_partial), hence eval/root_pass/relayout_finite_all_trees_partial for every style tree of leaves, block, flex and grid containers.")
+    c["assumptions"] = list(c.get("assumptions", [])) + [
+        "grid finiteness theorems: track sizing functions are finite numbers, and align-content / justify-content are not space-between (the gutter "
+        "adjustment divides by a weighted track count that is 0 for space-between on a 3- or 4-entry track vector; on the odd-length vectors the code "
+        "builds the value is computed and dropped — witness C03Finite.grid_gutter_adjustment_division_by_zero_dropped; that the four sizing runs keep "
+        "the length odd is not threaded through yet), besides aspect_ratio != 0 (known finding of the leaf/block theorems)"]
 
 
 _add_c03_finite_grid()
@@ -1807,7 +1834,8 @@ TIE_WHAT = {
     "TieBlock": "compute/block.rs in full (interaction form)", "TieTrackFns": "track sizing functions, GridTrack",
     "TieGridInit": "grid/explicit_grid.rs in full", "TieTracks": "track_sizing.rs: initialisation, find_size_of_fr, stretch_auto_tracks, flush",
     "TieTracks2": "track_sizing.rs: distribute_space_up_to_limits, maximise_tracks, distribute_item_space_to_*",
-    "TieTracks3": "track_sizing.rs: expand_flexible_tracks (interaction form)", "TiePlacement": "grid/placement.rs placement functions, CellOccupancyMatrix",
+    "TieTracks3": "track_sizing.rs: expand_flexible_tracks (interaction form)",
+    "TieGridItem2": "grid/types/grid_item.rs: struct GridItem, every method of GridItem (the tree-calling ones in interaction form; Props/TieGridItem.lean + TieGridItem2.lean)", "TiePlacement": "grid/placement.rs placement functions, CellOccupancyMatrix",
 }
 for _pid, _c in PROPS.items():
     _ties = [m.split(".")[-1] for m in _c.get("modules", []) if m.split(".")[-1].startswith("Tie")]
